@@ -6,6 +6,7 @@
 From BX Require Import Model.Router Proofs.RouterProofs.
 From BX Require Import Base.Prelude Base.Fsm Model.TxFsm Model.TxMgr Model.Interchain Model.IbtpExec Model.IbtpMon Model.IbtpJudge
      Proofs.IbtpIc Proofs.IbtpInv Proofs.IbtpBlock Proofs.IbtpProps.
+From BX Require Import Proofs.IbtpMonProofs.
 Local Open Scope N_scope.
 
 (** in every reachable state, for every ordered pair (f,t): the accepted request indices are exactly
@@ -104,6 +105,13 @@ Theorem C02_router_delivery_exact : forall d chain,
   told_txs d chain = listed_txs d chain.
 Proof. exact router_delivery_exact. Qed.
 Print Assumptions C02_router_delivery_exact.
+
+
+(** the boolean predicate the judge evaluates on implementation traces is exactly the inductively
+    defined trace property [C02_trace] (Proofs/IbtpMonProofs.v) *)
+Theorem C02_predicate_reflects : forall w q items tr, c02_b w q items tr = true <-> C02_trace w q 2 c2_init None items tr.
+Proof. exact c02_b_spec. Qed.
+Print Assumptions C02_predicate_reflects.
 
 (** * witnesses *)
 Definition w3 : world :=
